@@ -478,6 +478,31 @@ def run_forwarding(rec, F, S=None):
     rec.floor(RS, "receiver-growing list natives", n, 2)
 
 
+def run_number_roundtrip(rec, NB):
+    """NaN-boxed build: a number is its own bit pattern"""
+    R = rec.rule("F10.num-bits", "in the NaN-boxed representation a number is stored as its own IEEE bit pattern and read back unchanged (From<f64> and to_num are the identity on bits: no branch on the value, no masking, no arithmetic): -0, every NaN the hardware produces, subnormals and infinities mean the same in both builds. Which words are numbers is decided by is_num / the tag algebra, never by rewriting the number")
+    frm = NB.fn("<laythe_core::value::boxed::Value as core::convert::From<f64>>::from")
+    ton = NB.fn("laythe_core::value::boxed::Value::to_num")
+    if frm is None or ton is None:
+        rec.anchor_lost("F10.num-bits", "boxed From<f64>::from / to_num (nan_boxing facts)")
+        return
+    for fn, what in ((frm, "From<f64>::from"), (ton, "to_num")):
+        bad = []
+        for bi in sorted(fn.reachable):
+            blk = fn.blocks[bi]
+            if blk["t"]["k"] == "switch":
+                bad.append("a branch on the value")
+            if blk["t"]["k"] == "call" and "panic" not in blk["t"]["f"]:
+                bad.append("a call to %s" % lastseg(blk["t"]["f"]))
+            for s_ in blk["s"]:
+                if s_["r"]["k"] in ("bin", "checked", "un"):
+                    bad.append("%s" % s_["r"].get("op", s_["r"]["k"]))
+        ok = not bad
+        rec.inst(R, "boxed %s is the identity on bits" % what, ok=ok, loc=fn.loc)
+        if not ok:
+            rec.finding(R, "F10.num-bits/%s" % what, "boxed::Value::%s computes on the number (%s) instead of storing/reading its bit pattern: some doubles (-0, the negative quiet NaN that 0/0 produces on x86-64, ...) become a different number in the NaN-boxed build only" % (what, ", ".join(sorted(set(bad)))), loc=fn.loc, fn=fn.path)
+
+
 def run_forwarded_writes(rec, F):
     R = rec.rule("F10.fwd-write", "a list handle may be any number of growths behind (A -> B -> C): every List method that writes into a block (write_len / write_value) does so only on the arm where that handle's own state() is Here, and reaches a forwarded list by calling the same operation on it (which recurses to the end of the chain). A write through one resolved hop lands in a forwarding stub, where the length slot holds the forwarding pointer")
     n = 0
